@@ -168,7 +168,7 @@ class FlagOp:
             return tf
         if f is False:
             return ff
-        return jax.lax.select(f, tf, ff)
+        return jnp.where(f, tf, ff)
 
     @staticmethod
     def cond(f: Flag, tf: Callable[..., R], ff: Callable[..., R], *args: Any) -> R:
